@@ -49,7 +49,40 @@ pub struct HandshakeState {
     pub(crate) pattern_position: usize,
 }
 
+/// Everything a failed `read_message`/`write_message` may have touched, so that an
+/// error leaves the handshake exactly as it was.
+struct Checkpoint {
+    symmetricstate: crate::symmetricstate::SymmetricStateData,
+    e_on:           bool,
+    rs:             Toggle<[u8; MAXDHLEN]>,
+    re:             Toggle<[u8; MAXDHLEN]>,
+    #[cfg(feature = "hfs")]
+    kem_re:         Option<[u8; MAXKEMPUBLEN]>,
+}
+
 impl HandshakeState {
+    fn checkpoint(&mut self) -> Checkpoint {
+        Checkpoint {
+            symmetricstate: self.symmetricstate.checkpoint(),
+            e_on: self.e.is_on(),
+            rs: self.rs,
+            re: self.re,
+            #[cfg(feature = "hfs")]
+            kem_re: self.kem_re,
+        }
+    }
+
+    fn restore(&mut self, checkpoint: Checkpoint) {
+        self.symmetricstate.restore(checkpoint.symmetricstate);
+        self.e.set_on(checkpoint.e_on);
+        self.rs = checkpoint.rs;
+        self.re = checkpoint.re;
+        #[cfg(feature = "hfs")]
+        {
+            self.kem_re = checkpoint.kem_re;
+        }
+    }
+
     #[allow(clippy::too_many_arguments)]
     pub(crate) fn new(
         rng: Box<dyn Random>,
@@ -207,7 +240,7 @@ impl HandshakeState {
     /// Will result in `Error::Input` if the size of the output exceeds the max message
     /// length in the Noise Protocol (65535 bytes).
     pub fn write_message(&mut self, payload: &[u8], message: &mut [u8]) -> Result<usize, Error> {
-        let checkpoint = self.symmetricstate.checkpoint();
+        let checkpoint = self.checkpoint();
         match self._write_message(payload, message) {
             Ok(res) => {
                 self.pattern_position += 1;
@@ -215,7 +248,7 @@ impl HandshakeState {
                 Ok(res)
             },
             Err(err) => {
-                self.symmetricstate.restore(checkpoint);
+                self.restore(checkpoint);
                 Err(err)
             },
         }
@@ -338,7 +371,7 @@ impl HandshakeState {
     ///
     /// Will result in `StateProblem::Exhausted` if the max nonce count overflows.
     pub fn read_message(&mut self, message: &[u8], payload: &mut [u8]) -> Result<usize, Error> {
-        let checkpoint = self.symmetricstate.checkpoint();
+        let checkpoint = self.checkpoint();
         match self._read_message(message, payload) {
             Ok(res) => {
                 self.pattern_position += 1;
@@ -346,7 +379,7 @@ impl HandshakeState {
                 Ok(res)
             },
             Err(err) => {
-                self.symmetricstate.restore(checkpoint);
+                self.restore(checkpoint);
                 Err(err)
             },
         }
